@@ -27,8 +27,8 @@ Q_ASSUME = [
 PROPS = {
     'C01': {
         'level': 'proof', 'units': ['queue'],
-        'kani_quick': ['stub_descflags', 'k_life_direct', 'k_life_indirect'],
-        'kani_thorough': ['k_life_direct_anyidx', 'k_life_indirect_anyidx', 'k_two_direct', 'k_two_indirect'],
+        'kani_quick': ['stub_descflags', 'k_life_direct'],
+        'kani_thorough': ['k_life_indirect', 'k_life_direct_anyidx', 'k_life_indirect_anyidx', 'k_two_direct', 'k_two_indirect'],
         'kani_bounds': {'k_life_*': 'bounded stand-in: SIZE=4, one chain [1 in, 1 out], index 0xffff (anyidx: any 16-bit index)',
                         'k_two_*': 'bounded stand-in: SIZE=4, two chains, both completion orders'},
         'assumptions': Q_ASSUME,
